@@ -313,3 +313,31 @@ def r7(ctx):
         raise ShapeError("local.object: only %d property declarations found" % n)
     from .c15 import _fix_length_distinct
     _fix_length_distinct(ctx)
+
+
+@rule("C17.R8", "every commandable class can be created: the default value the constructor derives from the datatype exists for each datatype a commandable class is built from", floor=20,
+      engines="E0 class resolution + E1 facts")
+def r8(ctx):
+    prog = ctx.prog
+    m, f, k, meth = commando(ctx)
+    init = meth["__init__"]
+    dt = f.args.args[0].arg
+    # uses of <datatype>().value and the guards that dominate them
+    uses = [n for n in walk_shallow(init) if isinstance(n, ast.Attribute) and n.attr == "value" and isinstance(n.value, ast.Call) and norm(n.value.func) == dt and not n.value.args]
+    unguarded = []
+    for u in uses:
+        at = atom_texts(facts_at(u))
+        if not any(t.replace(" ", "") == "issubclass(%s,Atomic)" % dt and p for t, p in at):
+            unguarded.append(u)
+    atomic = prog.cls("primitivedata", "Atomic")
+    n = 0
+    for cname, c in sorted(m.classes.items()):
+        for b in c.node.bases:
+            if isinstance(b, ast.Call) and norm(b.func) == "Commandable" and b.args:
+                n += 1
+                dcls = prog.resolve_class_expr(m, b.args[0])
+                ok = dcls is not None and (not unguarded or prog.is_subclass(dcls, atomic.module.name, atomic.name))
+                ctx.check("%s:constructible[Commandable(%s)]" % (cname, norm(b.args[0])), ok, where(m, c.node),
+                          "the constructor computes its default as %s().value, but %s is not an atomic type and has no `value`: the class cannot be instantiated (AttributeError)" % (norm(b.args[0]), norm(b.args[0])))
+    if n < 20:
+        raise ShapeError("only %d commandable classes found" % n)
